@@ -49,7 +49,7 @@ def main():
     for p in sorted(glob.glob(os.path.join(VERIF, 'selftest', 'benign', pref + '*.patch'))):
         jobs.append((p, True))
     bad = 0
-    with concurrent.futures.ThreadPoolExecutor(max_workers=8) as ex:
+    with concurrent.futures.ThreadPoolExecutor(max_workers=int(os.environ.get('VERIF_SELFTEST_WORKERS') or 8)) as ex:
         for name, ok, msg in ex.map(lambda j: run_one(*j), jobs):
             print('%-8s %-55s %s' % ('ok' if ok else 'FAIL', name, msg))
             if not ok:
